@@ -258,6 +258,8 @@ func VGenPayload(kind int, tier int) IKEPayload {
 			for i := 0; i < k; i++ {
 				d.SPIs = append(d.SPIs, vr.U32())
 			}
+		} else if tier >= 0 {
+			d.SPISize = vr.U8() // without SPIs the size octet is the sender's to choose (0 for an IKE SA)
 		}
 		return d
 	case TypeV:
